@@ -40,7 +40,8 @@ func (s SSHConfig) Get(id string) (string, error) {
 
 // MarshalYAML makes SSHKey implement yaml.Marshaller
 func (s SSHKey) MarshalYAML() (interface{}, error) {
-	if s.Path == "" {
+	if s.Path == "" && s.ID == "default" {
+		// the only ID the list form accepts without a path
 		return s.ID, nil
 	}
 	return fmt.Sprintf("%s=%s", s.ID, s.Path), nil
@@ -48,7 +49,7 @@ func (s SSHKey) MarshalYAML() (interface{}, error) {
 
 // MarshalJSON makes SSHKey implement json.Marshaller
 func (s SSHKey) MarshalJSON() ([]byte, error) {
-	if s.Path == "" {
+	if s.Path == "" && s.ID == "default" {
 		return []byte(fmt.Sprintf(`%q`, s.ID)), nil
 	}
 	return []byte(fmt.Sprintf(`%q`, s.ID+"="+s.Path)), nil
